@@ -158,10 +158,19 @@ func extractTarGzip(dirPath, dirName, gzPath, checksum string, buf []byte, prese
 // `prefix` parameter and is trimmed.
 func extractTarDirectory(dirPath, dirName string, r io.Reader, buf []byte, preservePermissions bool) error {
 	tr := tar.NewReader(r)
+	// mode recorded in the archive for the base directory itself
+	var baseMode *os.FileMode
 	for {
 		header, err := tr.Next()
 		if err != nil {
 			if err == io.EOF {
+				if baseMode != nil && !preservePermissions {
+					// The base directory was created by the caller with the
+					// default permissions, so the mode recorded for it has
+					// not been applied by the creation of the directory as
+					// it is for every other directory of the archive.
+					return narrowDirMode(dirPath, *baseMode)
+				}
 				return nil
 			}
 			return err
@@ -189,6 +198,10 @@ func extractTarDirectory(dirPath, dirName string, r io.Reader, buf []byte, prese
 			// the directory itself included: it would be followed by the
 			// creation of the entries below it and by os.Chmod
 			err = ensureDirNoSymlink(dirPath, filePath, header.FileInfo().Mode())
+			if filePathRel == "." {
+				mode := header.FileInfo().Mode()
+				baseMode = &mode
+			}
 		case tar.TypeLink:
 			// NOTE: ORAS does not generate hard links when creating tarballs.
 			// If a hard link is found in the tarball, it will be extracted.
@@ -287,6 +300,27 @@ func ensureLinkPath(baseAbs, baseRel, link, target string) (string, error) {
 		return "", err
 	}
 	return target, nil
+}
+
+// narrowDirMode removes the permission bits that are not in mode from the
+// existing directory path and sets the sticky bit if mode has it, which is
+// what creating the directory with mode would have left. Permissions are never
+// widened.
+func narrowDirMode(path string, mode os.FileMode) error {
+	info, err := os.Lstat(path)
+	if err != nil {
+		return err
+	}
+	if !info.IsDir() {
+		return nil
+	}
+	const special = os.ModeSetuid | os.ModeSetgid | os.ModeSticky
+	cur := info.Mode() & (os.ModePerm | special)
+	want := cur.Perm()&mode.Perm() | cur&special | mode&os.ModeSticky
+	if want == cur {
+		return nil
+	}
+	return os.Chmod(path, want)
 }
 
 // removeSymlink removes path if it is a symbolic link.
